@@ -64,6 +64,10 @@ type Case struct {
 	Par    int                   `json:"par,omitempty"`    // how many of them at a time (<= 4)
 	Reps   int                   `json:"reps,omitempty"`   // in-process repetitions
 	Orders []map[string][]string `json:"orders,omitempty"` // "<file>|<types|constants|services|includes>" -> visiting order
+	// PluginFiles: what the in-process plugin answers (a function of the request only):
+	// "" nothing, "distinct" three files, "respelled" one file twice under two spellings of its
+	// path with different contents (a conflict: refused on every run)
+	PluginFiles string `json:"plugin_files,omitempty"`
 }
 
 var optionSets = []Opts{
@@ -204,6 +208,7 @@ func TestInProcess(t *testing.T) {
 	rapid.Check(t, func(t *rapid.T) {
 		src, files, entry, feat := genSources(t)
 		c := Case{Src: src, Files: files, Entry: entry, Feat: feat, Opts: genOptions(t), Reps: reps}
+		c.PluginFiles = rapid.SampledFrom([]string{"", "", "distinct", "respelled"}).Draw(t, "plugin_files")
 		c.Orders = genOrders(t, mapKeys(files, entry), norders)
 		record("inproc", c)
 		ev.Report(t, "inproc", c, ev.Guard(func() error { return checkCase(root, c) }))
